@@ -157,6 +157,9 @@ func columnsLayout(context *layoutContext, box_ bo.BlockBoxITF, bottomSpace pr.F
 	)
 	if h := context.currentFootnoteArea.Height; h != pr.AutoF {
 		footnoteAreaHeights = []pr.Float{context.currentFootnoteArea.MarginHeight()}
+		// the footnotes already on the page are not ours to report when no
+		// column is rendered (empty box, e.g. the root box of a blank page)
+		lastFootnotesHeight = footnoteAreaHeights[0]
 	}
 
 	for _, pair := range columnsAndBlocks {
